@@ -285,16 +285,25 @@ def build_rockit(case, rockit, with_method=True, with_values=True, with_solver=T
     B.pdecl = []
     for d in case.get("params", []):
         g = d.get("grid", "")
-        p = ocp.parameter(d.get("rows", 1), d.get("cols", 1), grid="control" if g else "",
-                          include_last=(g == "control+"))
+        if case.get("register_list"):
+            # declaration through the list form of the registration API (user-made symbols)
+            p = ca.MX.sym("pl%d" % len(B.pdecl), d.get("rows", 1), d.get("cols", 1))
+            ocp.register_parameter([p], grid="control" if g else "", include_last=(g == "control+"))
+        else:
+            p = ocp.parameter(d.get("rows", 1), d.get("cols", 1), grid="control" if g else "",
+                              include_last=(g == "control+"))
         B.objs["p"].append(p)
         B.pdecl.append((g, p, d))
         S[{"": "p", "control": "pc", "control+": "pp"}[g]] += slots(p)
     B.vdecl = []
     for d in case.get("vars", []):
         g = d.get("grid", "")
-        v = ocp.variable(d.get("rows", 1), d.get("cols", 1), grid="control" if g else "",
-                         include_last=(g == "control+"), scale=scale_arg(d))
+        if case.get("register_list"):
+            v = ca.MX.sym("vl%d" % len(B.vdecl), d.get("rows", 1), d.get("cols", 1))
+            ocp.register_variable([v], grid="control" if g else "", include_last=(g == "control+"), scale=scale_arg(d))
+        else:
+            v = ocp.variable(d.get("rows", 1), d.get("cols", 1), grid="control" if g else "",
+                             include_last=(g == "control+"), scale=scale_arg(d))
         B.objs["v"].append(v)
         B.vdecl.append((g, v, d))
         S[{"": "v", "control": "vc", "control+": "vp"}[g]] += slots(v)
